@@ -84,8 +84,14 @@ def gen_script(rng, nops):
                 t = now + rng.choice([0, 1, 100, 101, 1000, 60000, 60000, 120001, 3600000])
             lines.append("%s %d" % (rng.choice(["ADV", "ADV", "ADV", "ADVB", "LATE"]), t))
             now = t
-        elif r < 0.95:
+        elif r < 0.93:
             lines.append("JITTER %d" % rng.randrange(20))
+        elif r < 0.96 and nb < 4:
+            # a browser created later: on the shared cache it meets the records its predecessors stored (its creation
+            # question must list the unexpired PTR records already held for its type); or on a cache of its own
+            ty = rng.choice(TYPES + [BROWSE])
+            lines.append("NEW %d browser %s %s" % (nb, hexs(ty), "c0" if (shared and rng.random() < 0.8) else "-"))
+            nb += 1
         elif shared:
             lines.append("CLOOKUP c0 - 255")
     now += rng.choice([1, 5000, 130000])
